@@ -3,10 +3,23 @@
 import json, sys
 ALL = ["C%02d" % i for i in range(1, 21)]
 # id -> (level, technique, level text, level note, design ref)
+LEDGER_NOTE = "Engine loop, libp2p and kubo are stubbed; epoch outcomes are scripted (drawn scores fed through the real determineNewIdentityState/applyOnState); histories are sampled from a seeded tape, not enumerated."
 CLAIMED = {
+ "C01": ("exploration", "deterministic simulation: replicas differing only in map seed/zone/clock skew/restart/rollback history apply the same blocks; byte comparison of roots, next-block parameters, stored diffs",
+         "Seeded exploration: every block of every run is recomputed by 2-4 replicas whose node-local conditions are owned by the simulator (Go map order through a runtime seam, time.Local, skewed virtual clock, restart and rollback histories).", LEDGER_NOTE, "3 C01"),
  "C02": ("exploration", "deterministic simulation: seeded multi-replica ledger runs, adversarial mempool, honest proposal must validate+insert on every same-head replica",
-         "Seeded exploration of simulated multi-replica ledger histories with the real ProposeBlock/ValidateBlock/AddBlock on every replica; a clean batch is evidence, not proof.",
-         "Engine loop, libp2p and kubo are stubbed; epoch outcomes are scripted through the real applyOnState; state space sampled, not enumerated.", "3 C02"),
+         "Seeded exploration of simulated multi-replica ledger histories with the real ProposeBlock/ValidateBlock/AddBlock on every replica; a clean batch is evidence, not proof.", LEDGER_NOTE, "3 C02"),
+ "C04": ("exploration", "deterministic simulation: full ledger scan after every committed block + per-transaction re-application on a private state, bound from configuration",
+         "Seeded exploration of ledger histories incl. epoch transitions with drawn outcomes; conservation is checked as an invariant after every block, not only at the end.", LEDGER_NOTE, "3 C04"),
+ "C05": ("exploration", "deterministic simulation: per-transaction per-address (balance, stake) deltas against pre-state relationships",
+         "Seeded exploration; each transaction of each accepted block is applied alone with the real applyTxOnState and its effect on every known address is compared with the signer and the named exceptions.", LEDGER_NOTE, "3 C05"),
+ "C06": ("exploration", "deterministic simulation: replayer client, Byzantine block with replayed tx, rollbacks; history check of the canonical chain of every replica",
+         "Seeded exploration across 1-3 epochs; the canonical chain read back from each replica's store is checked for duplicate hashes, nonce sequence per (sender, epoch) and epoch match.", LEDGER_NOTE, "3 C06"),
+ "C09": ("fault_enumeration", "deterministic simulation with crash injection: every storage unit of recorded operations is a crash point; restart + catch-up vs uncrashed twin",
+         "For each recorded operation the crash points are enumerated completely (every atomic storage unit); which scenarios and operations are recorded is seeded sampling. Second-order crashes are sampled.",
+         "The store is modelled as prefix-durable over atomic units (put/delete/batch); LevelDB itself is not exercised. " + LEDGER_NOTE, "3 C09"),
+ "C10": ("exploration", "deterministic simulation: live validator view vs fresh Load() after every block on every replica, plus restart/rollback rebuilds; registry vs ledger scan",
+         "Seeded exploration of identity-changing histories; comparison covers every public getter incl. committee draws and ordered pool members.", LEDGER_NOTE, "3 C10"),
 }
 NOT_YET = "not claimed yet: the check for this property is still being built in this session (see DESIGN.md section 3)"
 def main():
